@@ -8,7 +8,8 @@ from harness.translate import gen
 
 MUTANTS = [
     ("C04", "api/tracepoint/tracepoint_config.py", "return ts <= self._end", "return ts < self._end"),
-    ("C04", "api/tracepoint/trigger.py", "if time_since_last < self.__fire_period_ns():", "if time_since_last <= self.__fire_period_ns():"),
+    ("C04", "api/tracepoint/trigger.py", "if period_ns > 0 and time_since_last < period_ns:", "if period_ns > 0 and time_since_last <= period_ns:"),
+    ("C04", "api/tracepoint/trigger.py", "if period_ns > 0 and time_since_last < period_ns:", "if period_ns >= 0 and time_since_last < period_ns:"),
     ("C04", "api/tracepoint/trigger.py", "return self.fire_period * 1_000_000", "return self.fire_period * 1_000"),
     ("C04", "api/tracepoint/tracepoint_config.py", "self._fire_count += 1", "self._fire_count += 2"),
     ("C03", "api/tracepoint/trigger.py", 'if event == "line" and file == self.path and line == self.line:', 'if file == self.path and line == self.line:'),
